@@ -213,16 +213,22 @@ def run_history(py7zr, hist, workdir, *, target="path", filters_by_session=None,
             exc = "none"
             try:
                 # "its arguments are rejected": a climbing or absolute name, a name or content of a type the call does not take
-                bad = c % 4 if fault == "badname" else -1
+                # (a name the header cannot hold: a lone surrogate as os.listdir gives for a file name that is not UTF-8, an embedded NUL)
+                bad = c % 6 if fault == "badname" else -1
+                unstorable = {4: "caf\udce9-" + nm, 5: "nul\x00-" + nm}
                 if k == "writestr":
                     if bad == 2:
                         z.writestr(len(data), nm)
                     elif bad == 3:
                         z.writestr(data, None)
+                    elif bad >= 4:
+                        z.writestr(data, unstorable[bad])
                     else:
                         z.writestr(data, ["../" + nm, "/abs/" + nm][bad] if bad >= 0 else nm)
-                elif k == "writef" and bad >= 2:
+                elif k == "writef" and bad in (2, 3):
                     z.writef(io.StringIO("text, not bytes") if bad == 2 else data, nm)
+                elif k == "writef" and bad >= 4:
+                    z.writef(io.BytesIO(data), unstorable[bad])
                 elif k == "writef":
                     if fault == "read":
                         after = 0 if read_kmode == "zero" else len(data) // 2
